@@ -187,6 +187,17 @@ structure SegOK (C : Compression) (P bs : Nat) (s : SourceSegment) (docs : List 
   /-- the decompressor id in the footer identifies the codec -/
   sameCodec : s.store.decompId = C.id → s.codec = C
 
+/-- stacking (the guard is false) is only chosen for a source without deletes, with enough blocks,
+whose decompressor is the writer's compressor — for the three clauses as extracted from the source -/
+theorem mustCopy_false (C : Compression) (minBlocks : Nat) (s : SourceSegment)
+    (h : mustCopy C minBlocks s = false) :
+    s.hasDeletes = false ∧ minBlocks ≤ ((checkpointsOf s.store.index).take (minBlocks + 1)).length ∧
+      s.store.decompId = C.id := by
+  have hne : Gen.STACK_CODEC_CLAUSE_IS_NE = 1 := by decide
+  simp only [mustCopy, codecClause, hne, if_true, Bool.or_eq_false_iff, decide_eq_false_iff_not,
+    Decidable.not_not, Nat.not_lt] at h
+  exact ⟨h.1.1, h.1.2, h.2⟩
+
 theorem mergeStep_spec (C : Compression) (K P minBlocks bs : Nat) (hK : 1 ≤ K) (hP : 2 ≤ P)
     (hbs : bs < 4294967296) (w : Writer) (done : List Bytes) (hw : WInv C K w done) (hwb : w.blockSize = bs)
     (s : SourceSegment) (docs : List Bytes) (hs : SegOK C P bs s docs) :
@@ -208,8 +219,7 @@ theorem mergeStep_spec (C : Compression) (K P minBlocks bs : Nat) (hK : 1 ≤ K)
   · -- stacking: no deletes, same codec
     rw [if_neg hm]
     have hm' : mustCopy C minBlocks s = false := by simpa using hm
-    simp only [mustCopy, Bool.or_eq_false_iff, decide_eq_false_iff_not, Decidable.not_not] at hm'
-    obtain ⟨⟨hdel, _⟩, hid⟩ := hm'
+    obtain ⟨hdel, _, hid⟩ := mustCopy_false C minBlocks s hm'
     have hcodec := hs.sameCodec hid
     have hall : liveDocs s.alive 0 docs = docs :=
       liveDocs_all _ _ 0 (fun i hi => by simpa using hs.noDeletes hdel i hi)
